@@ -53,6 +53,8 @@ Inductive wop :=
 | WRem (k : N).
 Inductive wstep := Ws (o : wop) (len : Z).      (* observed Len() after the call *)
 
+Inductive gop := Gop (tid : nat) (k id : N) (call ret : Z).
+
 Inductive case :=
   (* NewUInt64Map(cap): observed len(data), growAt; history; final non-empty slots (index,key,value), final len(data) *)
 | CaseTab (cap n0 g0 : Z) (steps : list tstep) (final : list (N * N * N)) (nfinal : Z)
@@ -82,7 +84,11 @@ Inductive case :=
 | CaseWrap (size : Z) (exp : list N) (steps : list wstep)
   (* a concurrent history of wrapper calls recorded on one PositiveCache / NegativeCache (real
      goroutines): Set k e = LStore, Remove k = LRem, Get k -> r = LGet, with logical-clock stamps *)
-| CaseWLin (exp : list N) (ops : list hop).
+| CaseWLin (exp : list N) (ops : list hop)
+  (* a concurrent history of LimiterStore.Get recorded on one NewLimiterStore(maxSize, _) (real
+     goroutines) with at most max(maxSize,1) keys in play, so that nothing has to be evicted:
+     thread, key, identity of the limiter returned, logical-clock stamps *)
+| CaseLimC (maxSize : Z) (ops : list gop).
 
 (* ------------------------------------------------------------- helpers *)
 Definition dig_p : N := 1099511628211%N.
@@ -344,6 +350,47 @@ Fixpoint lim_run (ms : Z) (st : lstore) (steps : list (lop * Z)) : bool :=
       end
   end.
 
+(* concurrent Gets on the limiter store: an order of the calls that respects "returned
+   before the other was called" and that the sequential model accepts call by call
+   (Limiter.lstep with no eviction: a stored key hands back its limiter, a new key gets a
+   limiter no key has, and there is room for it).  Get's two lock sections (hit under the
+   read lock; re-check and insert under the write lock) are each one atomic step of the
+   store, so every run of the code is such an order.  if-then-else throughout (vm_compute
+   is call-by-value). *)
+Definition g_call (g : gop) : Z := let '(Gop _ _ _ c _) := g in c.
+Definition g_ret (g : gop) : Z := let '(Gop _ _ _ _ r) := g in r.
+Definition g_min_ret (l : list gop) : Z := fold_left (fun a g => Z.min a (g_ret g)) l (2 ^ 62)%Z.
+Fixpoint goc_search (fuel : nat) (ms : Z) (st : lstore) (pending : list gop) : bool :=
+  match fuel with
+  | O => false
+  | S f =>
+      match pending with
+      | [] => true
+      | _ =>
+          let mr := g_min_ret pending in
+          (fix try (i : nat) (l : list gop) {struct l} : bool :=
+             match l with
+             | [] => false
+             | Gop _ k id c _ :: r =>
+                 if (c <=? mr)%Z
+                 then match lstep ms st (OGet k c id None) with
+                      | Some st' => if goc_search f ms st' (remove_nth i pending) then true else try (S i) r
+                      | None => try (S i) r
+                      end
+                 else try (S i) r
+             end) 0 pending
+      end
+  end.
+Definition goc_keys (ops : list gop) : list N :=
+  fold_left (fun acc g => let '(Gop _ k _ _ _) := g in if lmem k acc then acc else k :: acc) ops [].
+Definition goc_check (ms : Z) (ops : list gop) : bool :=
+  (Z.of_nat (length (goc_keys ops)) <=? lbound ms)%Z && goc_search (S (length ops)) ms [] ops.
+(* judged from the observations alone: one limiter per key, no limiter under two keys *)
+Definition goc_spec (ms : Z) (ops : list gop) : bool :=
+  negb (Z.of_nat (length (goc_keys ops)) <=? lbound ms)%Z ||
+  forallb (fun a => forallb (fun b =>
+     let '(Gop _ k1 i1 _ _) := a in let '(Gop _ k2 i2 _ _) := b in Bool.eqb (N.eqb k1 k2) (N.eqb i1 i2)) ops) ops.
+
 (* ------------------------------------------- check: expiring wrappers *)
 Definition exp_of (exp : list N) (v : N) : bool := lmem v exp.
 Definition wrap_apply (ex : N -> bool) (cap : Z) (m : segmap) (o : wop) : option segmap :=
@@ -398,6 +445,7 @@ Definition check_case (c : case) : bool :=
          have a linearization that is legal for the same Lin.legal — what
          Proofs_wrap.wrappers_linearize proves for every schedule of the interleaving model *)
       linearizable (map (wview_hop (exp_of exp)) ops)
+  | CaseLimC ms ops => goc_check ms ops
   end.
 
 (* ------------------------------------------------------------- the spec *)
@@ -611,4 +659,5 @@ Definition spec_case (c : case) : bool :=
   | CaseLin ops => lin_spec ops
   | CaseWrap size exp steps => wrap_spec_run (exp_of exp) (snd (new_cache size)) [] steps
   | CaseWLin exp ops => lin_spec (map (wview_hop (exp_of exp)) ops)
+  | CaseLimC ms ops => goc_spec ms ops
   end.
